@@ -281,12 +281,14 @@ structure DCall where
   answered : Bool := false
   written : Bool := false
   gated : Bool := false     -- stopped in the StreamContext callback: id reserved, not registered
+  anyId : Bool := false     -- started together with others: which id it was given is not determined
 
 structure DConn where
   st : MuxOwn.St
   off : Nat                 -- IDGenerator.offset
   cur : Option Nat := none
   zed : Bool := false       -- `z` / `k` was given
+  fault : Option Nat := none   -- a write fault is armed: the peer accepts this many more request frames
 
 structure DS where
   hl : Nat
@@ -431,6 +433,32 @@ def DS.ungate (ds : DS) (i : Nat) (c : DCall) : DS :=
       else ((ds.act k (.write i) "write").act k (.writeReturned i) "writeReturned").setCall i { c with written := true }
   | _ => ds.setCall i c          -- addCall refused: ErrConnectionClosed (the id stays reserved)
 
+/-- `Q<n>` after `t<k>`: n calls started together; the peer accepts k request frames, then one Write reports the write
+    deadline: that call closes the connection (closeWithError(err)), the calls whose frames were accepted are handed the
+    error, the others fail in Write / in addCall. Which call is which is not determined - every one ends with an error
+    of the connection, every id stays reserved. -/
+def DS.batch (ds : DS) (n k : Nat) : DS :=
+  let kc := ds.cc
+  let ds := (List.range n).foldl (fun ds j =>
+    match ds.conns[kc - 1]? with
+    | none => ds.fail "bad-op"
+    | some cn =>
+      match dAlloc ds.nb cn.off (fun s => s == 0 || (cn.st.owner s).isSome) with
+      | none => ds.fail "bad-op"
+      | some (sid, off') =>
+        let i := ds.calls.length + 1
+        let c : DCall := { typ := 'q', conn := kc, L := 5, anyId := true }
+        let ds := { ds with calls := ds.calls ++ [c] }
+        let ds := ds.setConn kc fun cn => { cn with off := off' }
+        let ds := (ds.act kc (.reserve i sid .user) "reserve").act kc (.register i) "register"
+        if j < k then ((ds.act kc (.write i) "write").act kc (.writeReturned i) "writeReturned").setCall i { c with written := true }
+        else ds) ds
+  let first := ds.calls.length - n
+  let ds := (List.range n).foldl (fun ds j => if j < k then ds else ds.act kc (.writeFailed (first + j + 1)) "writeFailed") ds
+  let ds := ds.setConn kc fun cn => { cn with zed := true, fault := none }
+  let ds := { ds with calls := ds.calls.map fun (c : DCall) => if c.conn = kc then { c with park := false } else c }
+  ds.settle kc
+
 def DS.step (ds : DS) (w : String) : DS :=
   if ds.bad.isSome then ds else
   let gate := w.startsWith "^"
@@ -444,6 +472,20 @@ def DS.step (ds : DS) (w : String) : DS :=
   | 'q' :: r => match (String.ofList r).toNat? with
       | some L => if gate ∧ held then ds.fail "bad-op" else ds.start 'q' L held park gate
       | none => ds.fail "bad-op"
+  | 't' :: r =>
+      match (String.ofList r).toNat?, ds.conns[ds.cc - 1]? with
+      | some k, some cn => if ¬ plain ∨ k > 8 ∨ cn.zed ∨ cn.fault.isSome then ds.fail "bad-op"
+                           else ds.setConn ds.cc fun cn => { cn with fault := some k }
+      | _, _ => ds.fail "bad-op"
+  | 'Q' :: r =>
+      match (String.ofList r).toNat?, ds.conns[ds.cc - 1]? with
+      | some n, some cn =>
+        let busy := ds.calls.any fun c => c.conn == ds.cc && (c.held || c.queued || c.gated)
+        (match cn.fault with
+         | some k => if ¬ plain ∨ n < 1 ∨ n > 6 ∨ k ≥ n ∨ cn.zed ∨ ¬ ds.quiet ds.cc ∨ busy ∨ ds.calls.length + n > 40 then ds.fail "bad-op"
+                     else ds.batch n k
+         | none => ds.fail "bad-op")
+      | _, _ => ds.fail "bad-op"
   | 's' :: r =>
       match (String.ofList r).toNat? with
       | some i =>
@@ -580,13 +622,15 @@ def dsAnswer (proto wr : String) (steps : List String) : String :=
     | none =>
       let idx := List.range ds.calls.length
       let sids := idx.map fun j => match ds.calls[j]? with
-        | some c => if c.written then toString ((ds.stOf c.conn).sidOf (j + 1)) else "-"
+        | some c => if c.anyId then "*" else if c.written then toString ((ds.stOf c.conn).sidOf (j + 1)) else "-"
         | none => "?"
       let outs := idx.map fun j => match ds.calls[j]? with
         | some c => ds.outcome (j + 1) c
         | none => "?"
       let cs := ds.conns.map fun cn => if cn.st.closed.isSome then "closed" else "open"
-      " ".intercalate (["s=" ++ ",".intercalate sids] ++ ds.out.reverse ++ [";"] ++ outs ++ ["|"] ++ cs)
+      -- (`dup=0`: every request frame the peer read, it read once - C01_own_monitor_sound: a second `req` on an id whose
+      --  request is outstanding is in no run of the machine)
+      " ".intercalate (["s=" ++ ",".intercalate sids] ++ ds.out.reverse ++ ["dup=0", ";"] ++ outs ++ ["|"] ++ cs)
   | _, _ => "bad-op"
 
 
